@@ -244,9 +244,60 @@ def variants_to_file(files, path, nvariants=3, seed=0, max_units=3000, sources=N
                 e["hash"].append(False)
                 e["code"].append(False)
                 e["exc"].append(type(ex).__name__)
+        # the same artefact written at the data level (what a JSON author or an editing tool can produce): redundant
+        # EXTENDED_ARG widths on instructions that are NOT jumps; the decoder never records those, normalize must
+        # still erase them, directly and after a code round trip of the edited data
+        try:
+            ed = _widen_non_jumps(CodeData.from_code(top))
+        except BaseException:  # noqa
+            ed = None
+        if ed is not None:
+            try:
+                ce = ed.to_code()
+                ok = json.dumps(cpy.sem_fp(ce), sort_keys=True) == sem0
+            except BaseException:  # noqa
+                ce, ok = None, False
+            if not ok:
+                st["selfcheck_failed"] += 1
+            for label, mk in (("data:wide_non_jumps", lambda: ed.normalize()),
+                              ("data:wide_non_jumps:recoded", lambda: CodeData.from_code(ed.normalize().to_code()).normalize())):
+                if label.endswith("recoded") and not ok:
+                    continue
+                e["edits"].append([label])
+                try:
+                    nk = mk()
+                    e["eq"].append(nk == n0)
+                    e["hash"].append(hash(nk) == hash(n0))
+                    e["code"].append(not cpy.code_diff(nk.to_code(), c0))
+                    e["exc"].append("")
+                except BaseException as ex:  # noqa
+                    e["eq"].append(False)
+                    e["hash"].append(False)
+                    e["code"].append(False)
+                    e["exc"].append(type(ex).__name__)
         evs.append(e)
     st["events"] = len(evs)
     with open(path, "w") as fh:
         for e in evs:
             fh.write(json.dumps(e, separators=(",", ":")) + "\n")
     return st
+
+
+def _widen_non_jumps(data, limit=3):
+    """data equal to `data` except that up to `limit` non-jump instructions of the top-level blocks ask for one
+    EXTENDED_ARG prefix (width 2); None when there is no such instruction"""
+    import dataclasses
+
+    from code_data import Jump
+
+    n = 0
+    blocks = []
+    for b in data.blocks:
+        nb = []
+        for ins in b:
+            if n < limit and not isinstance(ins.arg, Jump) and ins._n_args_override is None:
+                ins = dataclasses.replace(ins, _n_args_override=2)
+                n += 1
+            nb.append(ins)
+        blocks.append(tuple(nb))
+    return dataclasses.replace(data, blocks=tuple(blocks)) if n else None
